@@ -89,6 +89,14 @@ Proof.
   rewrite E1, E2. reflexivity.
 Qed.
 
+Lemma drain_close_val evs : drain_close evs = ClNoResponse.
+Proof.
+  induction evs as [|e evs IH]; [reflexivity|].
+  destruct e as [s ex| | |ex|]; try reflexivity.
+  - destruct s; [reflexivity|]. destruct ex; [reflexivity|exact IH].
+  - destruct ex; [reflexivity|exact IH].
+Qed.
+
 Lemma be16_bound h l : is_octet h -> is_octet l -> be16 h l + 2 <= N.to_nat 65537.
 Proof. unfold is_octet, be16. lia. Qed.
 
@@ -269,7 +277,7 @@ Section Loop.
     assert (E2 : (rcap <? 2) = false) by (apply Nat.ltb_ge; lia). rewrite E2.
     assert (E3 : (N.of_nat (rcap - 2) <? 65535)%N = false) by (apply N.ltb_ge; lia). rewrite E3.
     fold m.
-    destruct (handler m) as [r|] eqn:Hr; [|reflexivity].
+    destruct (handler m) as [r|] eqn:Hr; [|rewrite drain_close_val; reflexivity].
     pose proof (Hbound m r Hr) as Hrb.
     assert (E4 : (rcap <? 2 + length r) = false) by (apply Nat.ltb_ge; lia). rewrite E4.
     rewrite (to_be16_frame r Hrb). unfold nosd at 1. cbv beta.
